@@ -23,11 +23,11 @@ Proof.
   apply plan_ind.
   - split.
     + intros p. apply leaf_build with (r := ROk GNil); [reflexivity|].
-      intros G s. simpl. split; auto. constructor.
+      intros G s. simpl. split; auto. split; constructor.
     + intros p G s c g c' ro s' I C L. inversion L.
   - intros z. split.
     + intros p. apply leaf_build with (r := ROk (GInt z)); [reflexivity|].
-      intros G s. simpl. split; auto. constructor.
+      intros G s. simpl. split; auto. split; constructor.
     + intros p G s c g c' ro s' I C L. inversion L.
   - split.
     + intros p. apply leaf_build with (r := RErr (err_at p KBad)); [reflexivity|].
